@@ -388,7 +388,7 @@ func main() {
 	maxPaths := flag.Int("maxpaths", 200000, "")
 	maxPre := flag.Int("preempt", 2, "")
 	maxSteps := flag.Int("maxsteps", 2000000, "")
-	timeoutS := flag.Int("timeout", 600, "wall clock budget per harness (s); the whole invocation gets at most twice this")
+	timeoutS := flag.Int("timeout", 600, "wall clock budget per harness (s); in the quick tier the whole invocation gets at most twice this")
 	solverMs := flag.Int("solver-ms", 10000, "")
 	tier := flag.Int("tier", 0, "0 quick, 1 thorough")
 	out := flag.String("out", "", "result JSON file")
@@ -477,8 +477,8 @@ func main() {
 			continue
 		}
 		dl := time.Now().Add(time.Duration(*timeoutS) * time.Second)
-		if g := t0.Add(2 * time.Duration(*timeoutS) * time.Second); dl.After(g) {
-			dl = g
+		if g := t0.Add(2 * time.Duration(*timeoutS) * time.Second); *tier == 0 && dl.After(g) {
+			dl = g // quick tier: the whole invocation is bounded; the thorough tier keeps the per-harness budgets
 		}
 		r := w.explore(fn, *workers, *maxPaths, dl, 0)
 		results = append(results, r)
